@@ -27,7 +27,7 @@ class C14(Prop):
 
     def configure(self, rng, tier):
         cfg = swarm_config(rng, base={"name": 3.0, "build": 7.0, "attach": 4.0, "top": 1.5, "reference": 3.0,
-                                      "ns": 0.3, "policy": 0.2, "clone": 0.05})
+                                      "ns": 0.3, "policy": 0.2, "clone": 0.05, "adopt": 0.5})
         cfg["hostility"] = rng.choice([0.4, 0.5, 0.6, 0.7])
         cfg["names"] = rng.choice(["collide", "collide", "plain"])
         cfg["name_rate"] = rng.choice([0.6, 0.95])
